@@ -149,7 +149,10 @@ def check_unknown(case):
     tb, data, delta = case['type_byte'], case['data'], case.get('delta', 0)
     facts = dict(type='unknown_meta')
     try:
-        msg = mido.UnknownMetaMessage(tb, data=dec(case.get('data_as', data)) if 'data_as' in case else data)
+        if case.get('omit_data') and not data:
+            msg = mido.UnknownMetaMessage(tb)           # data is optional: an empty payload
+        else:
+            msg = mido.UnknownMetaMessage(tb, data=dec(case.get('data_as', data)) if 'data_as' in case else data)
         b = msg.bytes()
     except Exception as exc:  # noqa: BLE001
         return [fail('unknown-raises', f'{tb} {data[:8]}: {exc!r}', exc=exc_sig(exc), **facts)]
@@ -327,6 +330,7 @@ def enum_shard(rec, shard):
                 data = [(i * 13 + tb) % 256 for i in range(ln)]
                 rec.check({'kind': 'unknown', 'type_byte': tb, 'data': data, 'delta': (tb * 7 + ln) % 500},
                           distinct=True, sample=(tb == 0x60 and ln == 2))
+            rec.check({'kind': 'unknown', 'type_byte': tb, 'data': [], 'omit_data': True}, distinct=True, sample=False)
     elif kind == 'known-class':
         # generated on purpose so that the recorded findings stay visible and counted, never reported as new
         for h in (32, 33, 63, 64, 100, 128, 200, 254, 255):
